@@ -55,8 +55,92 @@ def identity(pc: Sequence[T], a: T, b: T, timeout_s: float = 20.0) -> Tuple[bool
         raise
 
 
+def _size(t: T) -> int:
+    return len(tm.subterms([t]))
+
+
+def hyp_mapping(pc):
+    mapping = {}
+    for c in pc:
+        if c.op != "eq" or c.args[0].sort == "B":
+            continue
+        x, y = c.args
+        sx, sy = _size(x), _size(y)
+        if sy > sx or (sy == sx and y.id > x.id):
+            x, y = y, x
+        if tm.is_const(x) or x.id in mapping:
+            continue
+        if any(z is x for z in tm.subterms([y])):
+            continue
+        mapping[x.id] = y
+    return mapping
+
+
+def rewrite_vc(pc, goal: T):
+    """Rewrite the goal and the other hypotheses with the equalities of the path condition
+    (larger side -> smaller side).  Sound: only uses equalities that are themselves in pc."""
+    mapping = hyp_mapping(pc)
+    if not mapping:
+        return tuple(pc), goal
+    keep = []
+    for c in pc:
+        if c.op == "eq" and c.args[0].sort != "B" and (c.args[0].id in mapping or c.args[1].id in mapping):
+            # a defining equality: rewrite only its smaller side's inside
+            keep.append(c)
+        else:
+            keep.append(c)
+    new_pc = []
+    for c in keep:
+        is_rule = c.op == "eq" and c.args[0].sort != "B" and (c.args[0].id in mapping or c.args[1].id in mapping)
+        if is_rule:
+            # rewrite inside both sides but not the rule's own left-hand side as a whole
+            big = c.args[0] if c.args[0].id in mapping else c.args[1]
+            small = c.args[1] if big is c.args[0] else c.args[0]
+            m2 = {k: v for k, v in mapping.items() if k != big.id}
+            nb, ns = tm.substitute([big, small], m2) if m2 else (big, small)
+            new_pc.append(tm.eq(nb, ns))
+        else:
+            new_pc.append(tm.substitute([c], mapping)[0])
+    g = goal
+    for _ in range(4):
+        g2 = tm.substitute([g], mapping)[0]
+        if g2 is g:
+            break
+        g = g2
+    return tuple(x for x in new_pc if x is not tm.TRUE), g
+
+
+def _hyp_substitution(pc, goal: T):
+    """Equality hypotheses  lhs == rhs  of the path condition (lemmas, assumptions) are used as
+    rewrite rules: an atom (variable / sqrt / function application) is replaced by the other side;
+    between two compound terms the larger one is replaced by the smaller one."""
+    mapping = {}
+    for c in pc:
+        if c.op != "eq" or c.args[0].sort == "B":
+            continue
+        x, y = c.args
+        sx, sy = _size(x), _size(y)
+        if sy > sx or (sy == sx and y.id > x.id):
+            x, y = y, x      # the larger (or, at equal size, the newer) side is rewritten to the other
+        if tm.is_const(x) or x.id in mapping:
+            continue
+        if any(z is x for z in tm.subterms([y])):
+            continue
+        mapping[x.id] = y
+    if not mapping:
+        return goal, 0
+    g = goal
+    for _ in range(4):  # rules may feed each other
+        g2 = tm.substitute([g], mapping)[0]
+        if g2 is g:
+            break
+        g = g2
+    return g, len(mapping)
+
+
 def _identity(pc, a: T, b: T):
     goal = tm.sub(a, b)
+    goal, n_hyp = _hyp_substitution(pc, goal)
     # equality hypotheses from the path condition that define a variable-free relation are
     # used by substitution only when they have the form  var == term  (kept simple on purpose)
     sub, vars_, atoms = _collect([goal])
@@ -137,40 +221,125 @@ def _identity(pc, a: T, b: T):
     g = val[goal.id]
     if g == 0:
         return True, "rational normal form is 0"
-    num = g.numer  # PolyElement in the associated ring
-    R = num.ring
+    R = g.numer.ring
     rgens = dict(zip(names, R.gens))
+    gen_index = {n: i for i, n in enumerate(names)}
 
-    # identical radicands → identical atoms (oldest atom of each class is kept)
-    seen_rad = {}
-    for kind, x, n, _ in reversed(atom_list):
+    def split_even_odd(pol, gen_name):
+        """pol = E(g²) + g·O(g²): returns dicts power-of-g² -> coefficient polynomial (g-free)."""
+        i = gen_index[gen_name]
+        even: Dict[int, object] = {}
+        odd: Dict[int, object] = {}
+        for mon, coeff in pol.terms():
+            k = mon[i]
+            rest = list(mon)
+            rest[i] = 0
+            term = R({tuple(rest): coeff})
+            h, o = divmod(k, 2)
+            d = odd if o else even
+            d[h] = d.get(h, R(0)) + term
+        return even, odd
+
+    def eval_in_r(parts, r):
+        """Σ coeff_h · r^h as a field element (r a field element)."""
+        out = K(0)
+        for h, c in parts.items():
+            out = out + K(c) * r**h if h else out + K(c)
+        return out
+
+    # ---- pass 1 (oldest atom first): reduced radicands, constant atoms, duplicate atoms
+    red: Dict[str, object] = {}       # atom generator -> its square as a field element over older generators
+    subst: Dict[str, object] = {}     # atom generator -> field element it is replaced by
+    order_old_first = list(reversed(atom_list))
+
+    def apply_subst(fe):
+        if not subst:
+            return fe
+        pairs = [(rgens[n], v) for n, v in subst.items()]
+        nn, dd = fe.numer, fe.denom
+        used = [n for n in subst if any(m[gen_index[n]] for m in nn.monoms()) or any(m[gen_index[n]] for m in dd.monoms())]
+        if not used:
+            return fe
+        # substitute via evaluation in the field: rebuild numer/denom with the generator mapped
+        def ev(pol):
+            out = K(0)
+            for mon, coeff in pol.terms():
+                t = K(coeff)
+                for n, i in gen_index.items():
+                    e = mon[i]
+                    if e:
+                        t = t * (subst[n] if n in subst else F[1 + i]) ** e
+                out = out + t
+            return out
+        return ev(nn) / ev(dd)
+
+    def normalise(fe, upto=None):
+        """Canonical form of a field element modulo the relations of the atoms processed so far
+        (newest first): numerator linear in every atom, denominator atom-free."""
+        fe = apply_subst(fe)
+        for kind, x, n, c in atom_list:  # newest first
+            gname = n
+            if gname not in red:
+                continue
+            r = red[gname]
+            i = gen_index[gname]
+            if not any(m[i] for m in fe.numer.monoms()) and not any(m[i] for m in fe.denom.monoms()):
+                continue
+            ne, no = split_even_odd(fe.numer, gname)
+            de, do = split_even_odd(fe.denom, gname)
+            Ne, No, De, Do = eval_in_r(ne, r), eval_in_r(no, r), eval_in_r(de, r), eval_in_r(do, r)
+            gg = F[1 + i]
+            den = De * De - r * Do * Do
+            if den == 0:
+                raise Unsupported("poly backend: zero denominator while rationalising")
+            fe = ((Ne * De - r * No * Do) + gg * (No * De - Ne * Do)) / den
+        return fe
+
+    seen: Dict[object, str] = {}
+    for kind, x, n, c in order_old_first:
         if kind == "sqrt":
-            rad = val[x.args[0].id]
-            k = (rad.numer, rad.denom)
-            if k in seen_rad:
-                num = num.compose(rgens[n], rgens[seen_rad[k]])
+            rad = normalise(val[x.args[0].id])
+            if not rad.numer.is_ground or not rad.denom.is_ground:
+                key = (rad.numer, rad.denom)
+                if key in seen:
+                    subst[n] = gens[seen[key]]
+                else:
+                    seen[key] = n
+                    red[n] = rad
             else:
-                seen_rad[k] = n
+                q = QQ(rad.numer.LC if rad.numer != 0 else 0) / QQ(rad.denom.LC)
+                num_, den_ = int(q.numerator), int(q.denominator)
+                import math as _m
+
+                if num_ >= 0 and _m.isqrt(num_) ** 2 == num_ and _m.isqrt(den_) ** 2 == den_:
+                    subst[n] = K(QQ(_m.isqrt(num_), _m.isqrt(den_)))
+                else:
+                    red[n] = rad
+        elif kind == "trig":
+            red[n] = K(1) - gens[c] ** 2   # S² = 1 − C²
+
+    # ---- pass 2: the goal.  Only its numerator matters; reduce it without field arithmetic.
+    num = g.numer
+    for n, v in subst.items():
+        if any(m[gen_index[n]] for m in num.monoms()):
+            num = num.compose(rgens[n], R(v.numer) if v.denom == 1 else None) if v.denom == 1 else _compose_frac(num, rgens[n], v, R, gen_index[n])
 
     def reduce_power(num, gen_name, repl_num, repl_den):
-        """Replace gen² by repl_num/repl_den in the polynomial num; returns a polynomial
-        proportional to the result (multiplied by a power of repl_den)."""
+        i = gen_index[gen_name]
         x = rgens[gen_name]
-        i = R.gens.index(x)
         by_deg: Dict[int, object] = {}
         for mon, coeff in num.terms():
             k = mon[i]
             rest = list(mon)
             rest[i] = 0
-            term = R({tuple(rest): coeff})
-            by_deg[k] = by_deg.get(k, R(0)) + term
+            by_deg[k] = by_deg.get(k, R(0)) + R({tuple(rest): coeff})
         if not by_deg or max(by_deg) < 2:
             return num
         kmax = max(by_deg) // 2
         out = R(0)
-        for k, c in by_deg.items():
+        for k, cf in by_deg.items():
             h, odd = divmod(k, 2)
-            t = c * repl_num**h * repl_den ** (kmax - h)
+            t = cf * repl_num**h * repl_den ** (kmax - h)
             if odd:
                 t = t * x
             out = out + t
@@ -179,12 +348,25 @@ def _identity(pc, a: T, b: T):
     for kind, x, n, c in atom_list:  # newest first
         if num == 0:
             break
-        if kind == "sqrt":
-            rad = val[x.args[0].id]
-            num = reduce_power(num, n, R(rad.numer), R(rad.denom))
-        elif kind == "trig":
-            s, cname = n, c
-            num = reduce_power(num, s, R(1) - rgens[cname] ** 2, R(1))
+        if n in red:
+            r = red[n]
+            num = reduce_power(num, n, R(r.numer), R(r.denom))
     if num == 0:
         return True, "numerator reduces to 0 modulo atom relations"
     return False, f"remainder with {len(num.terms())} terms"
+
+
+def _compose_frac(num, gen, value, R, i):
+    """Substitute gen := value (a field element p/q) in the polynomial num, up to a power of q."""
+    p, q = R(value.numer), R(value.denom)
+    by_deg = {}
+    for mon, coeff in num.terms():
+        k = mon[i]
+        rest = list(mon)
+        rest[i] = 0
+        by_deg[k] = by_deg.get(k, R(0)) + R({tuple(rest): coeff})
+    kmax = max(by_deg)
+    out = R(0)
+    for k, cf in by_deg.items():
+        out = out + cf * p**k * q ** (kmax - k)
+    return out
